@@ -76,7 +76,7 @@ cfg("MC_faults_pairs.cfg", fault_consts(FieldAlpha="<- AlphaPairs", Aliases='= {
 cfg("MC_faults_mut.cfg", fault_consts(FieldAlpha="<- AlphaMutF", OpTypes='= {"mutation"}', Aliases='= {""}', MaxFaults="= 2", MaxSel="= 3"), FAULT_INV, spec="SpecF")
 cfg("MC_faults_args.cfg", fault_consts(FieldAlpha="<- AlphaArgsF", ArgOpts="<- ArgOptsFail", Aliases='= {"", "z"}', MaxFaults="= 1", MaxSel="= 3"), FAULT_INV, spec="SpecF")
 cfg("MC_faults_cs.cfg", fault_consts(FieldAlpha="<- AlphaCs", Aliases='= {""}', MaxFaults="= 1", MaxSel="= 3"), FAULT_INV, spec="SpecF")
-cfg("MC_faults_csm.cfg", fault_consts(FieldAlpha="<- AlphaCsM", OpTypes='= {"mutation"}', Aliases='= {""}', MaxFaults="= 1", MaxSel="= 3"), FAULT_INV, spec="SpecF")
+cfg("MC_faults_csm.cfg", fault_consts(FieldAlpha="<- AlphaCsM", OpTypes='= {"mutation"}', Aliases='= {"", "z"}', MaxFaults="= 1", MaxSel="= 3"), FAULT_INV, spec="SpecF")
 cfg("MC_exec_cs.cfg", exec_consts(FieldAlpha="<- AlphaCs", Aliases='= {""}', MaxSel="= 3"), EXEC_INV)
 cfg("MC_faults_gd.cfg", fault_consts(FieldAlpha="<- AlphaGdF", ArgOpts="<- ArgOptsFail", Aliases='= {"", "z"}', MaxFaults="= 1", MaxSel="= 3"), FAULT_INV, spec="SpecF")
 cfg("MC_faults_s2.cfg", fault_consts(FieldAlpha="<- AlphaS2", Aliases='= {""}', Conds='= {"", "Leaf"}', MaxFaults="= 1", MaxSel="= 3", **S2), FAULT_INV, spec="SpecF")
